@@ -18,6 +18,9 @@ import tempfile
 
 VERIF = os.path.dirname(os.path.dirname(os.path.abspath(__file__)))
 REPO = "/repo"
+# the checkout whose ./check is run (default: this one).  Point SEED_CHECK_DIR at a separate worktree of /verif so that
+# evaluations against scratch copies (which regenerate lean/MirGen for the CHANGED source) never touch the main tree
+CHECK_DIR = os.environ.get("SEED_CHECK_DIR", VERIF)
 PY = "/venv/bin/python"
 
 
@@ -87,16 +90,16 @@ def run_one(sid, extra_checks, with_tests):
         checks = [pid] + [c for c in extra_checks if c != pid]
         res["checks"] = {}
         for c in checks:
-            env = dict(os.environ, MIR_EVAL_REPO=scratch, VERIF_EVIDENCE_DIR=os.path.join(VERIF, ".work", "seed_ev"),
+            env = dict(os.environ, MIR_EVAL_REPO=scratch, VERIF_EVIDENCE_DIR=os.path.join(CHECK_DIR, ".work", "seed_ev"),
                        VERIF_REPLAY_DIR=os.path.join(".work", "seed_ev"))
-            r = subprocess.run([os.path.join(VERIF, "check"), c, "--tier", "quick"], env=env, stdout=subprocess.PIPE,
+            r = subprocess.run([os.path.join(CHECK_DIR, "check"), c, "--tier", "quick"], env=env, stdout=subprocess.PIPE,
                                stderr=subprocess.PIPE, text=True)
             line = [l for l in r.stdout.split("\n") if l.startswith(("VIOLATION", "OK", "TOOL-ERROR"))]
             what = ""
             if r.returncode == 1 and line:
                 rp = line[-1].split("replay=")[1].split()[0]
                 try:
-                    v = json.load(open(os.path.join(VERIF, rp)))
+                    v = json.load(open(os.path.join(CHECK_DIR, rp)))
                     what = (v.get("what") or v.get("kind") or "")[:300]
                 except Exception:  # noqa: BLE001
                     pass
@@ -136,9 +139,10 @@ def main():
         for sid in ids:
             run_one(sid, extra, tests)
     finally:
-        sys.path.insert(0, os.path.join(VERIF, "tools"))
-        import restore_gen
-        restore_gen.restore()      # lean/MirGen back to what the unchanged /repo generates
+        if CHECK_DIR == VERIF:
+            sys.path.insert(0, os.path.join(VERIF, "tools"))
+            import restore_gen
+            restore_gen.restore()      # lean/MirGen back to what the unchanged /repo generates
 
 
 if __name__ == "__main__":
